@@ -15,6 +15,8 @@ Decided:
               attempt + 1 (the only place the number grows) bound to that hand-over's delegate future; the
               re-queued record keeps the attempt number and is due at (clock read after the attempt finished)
               + sleep_time; fn / args / kwargs / policy / future are copied from the same job
+  R-FIND      every walk over the job list is under the executor lock or over a copy (the finished attempt's job
+              is always found, so the policy is consulted and the future resolved)
   R-NEXT      the job picked by the loop never has an attempt in flight; among waiting jobs the earliest wins
   R-DUE       hand-over only after `when <= now` was established on a fresh clock read, else a wait of `when - now`
   R-TABLE     ExceptionRetryPolicy.should_retry decision table
@@ -124,11 +126,15 @@ def check(ctx, rep):
     rep.rule("R-POLICY", "on every path of the completion callback: the stop flag is tested before any policy call; should_retry is called at most once, with (job attempt, delegate future); sleep_time once and only after a true answer with the same arguments; no path leaves the callback by an exception raised in the policy")
     rep.rule("R-CALLBACK", "per completion: a retry appends a record for the same future and does not touch the future; otherwise the completed delegate's outcome is copied to the job's future and the job is removed after that")
     rep.rule("R-JOB", "records carry the same (policy, future, fn, args, kwargs); attempt: 0 at submit, +1 (constant) at hand-over only, unchanged at re-queue; due time: now at submit, (fresh clock read) + sleep_time at re-queue; the in-flight record holds the delegate future of its own hand-over")
+    rep.rule("R-FIND", "the job of a finished attempt is always found: every walk over the job list happens with the executor lock held or over a copy of the list (an iterator over the live list skips an entry when another thread removes one)")
     rep.rule("R-NEXT", "the job selected by the loop has no attempt in flight; a stop-flagged or overdue job is taken at once, otherwise the waiting job with the smallest due time")
     rep.rule("R-DUE", "the loop hands a job over only after `job.when <= now` on a fresh clock read, and otherwise waits exactly `job.when - now`")
     rep.rule("R-TABLE", "ExceptionRetryPolicy.should_retry decision table")
     rep.rule("R-ARITH", "ExceptionRetryPolicy.sleep_time has the closed form min(sleep * exponent ** (attempt - 1), max_sleep)")
     rep.rule("R-WHOCALLS", "the future of a job is resolved (result / exception set) only on the no-retry branch of the completion callback and on the stop-retry branch of the worker loop")
+    from .. import roles as _roles
+    nwalk = _roles.iteration_rule(ctx, rep, _roles.Queue(ctx, prog.cls("RetryExecutor")), "R-FIND")
+    rep.count("walks over the retry job list", nwalk, 3)
     lay = discover(ctx)
     rex = lay.cls
     R = lay.roles
